@@ -704,7 +704,7 @@ impl AnnounceStorage {
     }
 //@end
 
-//@begin fn src/storage.rs impl:AnnounceStorage insert_contact props=C07
+//@begin fn src/storage.rs impl:AnnounceStorage insert_contact props=C07,C05
     pub fn insert_contact(&mut self, item: AnnounceItem) -> (r: Option<bool>)
         requires old(self).wf(), item.expiration.info_hash == ikey(item).0,
         ensures final(self).expires@ == old(self).expires@, st_ok(final(self).storage@),
@@ -793,11 +793,11 @@ impl AnnounceStorage {
     }
 //@end
 
-//@begin fn src/storage.rs impl:AnnounceStorage add props=C07
+//@begin fn src/storage.rs impl:AnnounceStorage add props=C07,C05
     pub fn add(&mut self, info_hash: InfoHash, address: SocketAddr, curr_time: Instant) -> (r: bool)
         requires old(self).wf(), inst_nanos(curr_time) <= clock(),
         ensures final(self).wf(), // @C07.store_invariant
-            r == (e_has(E0(*old(self), inst_nanos(curr_time)), (info_hash, address)) || E0(*old(self), inst_nanos(curr_time)).len() < 500), // @C07.accepted_iff_already_stored_or_room
+            r == (e_has(E0(*old(self), inst_nanos(curr_time)), (info_hash, address)) || E0(*old(self), inst_nanos(curr_time)).len() < 500), // @C07.accepted_iff_already_stored_or_room @C05.announce_refused_only_when_the_store_is_full
             !r ==> final(self).expires@ == E0(*old(self), inst_nanos(curr_time)), // @C07.refusal_evicts_nothing
             r ==> final(self).expires@.len() > 0 && ekey(final(self).expires@.last()) == (info_hash, address) && inst_nanos(final(self).expires@.last().inserted) == clock()
                     && final(self).expires@.drop_last() == E0(*old(self), inst_nanos(curr_time)).filter(not_key((info_hash, address))), // @C07.renewal_restarts_24h_without_duplicate
@@ -884,7 +884,7 @@ impl AnnounceStorage {
 //@end
 
     /// Returns true if the item was added/it's existing expiration updated, false otherwise.
-//@begin fn src/storage.rs impl:AnnounceStorage add_item props=C07
+//@begin fn src/storage.rs impl:AnnounceStorage add_item props=C07,C05
     pub fn add_item(&mut self, info_hash: InfoHash, address: SocketAddr) -> (r: bool)
         requires old(self).wf()
         ensures final(self).wf(), // @C07.store_invariant
